@@ -9,6 +9,7 @@ C35: MonteCarloSampler_jit in lockstep with the reference sampler over the same 
 See DESIGN.md sections 4.4-4.6.
 """
 import copy
+import os
 import random
 
 import numpy as np
@@ -38,7 +39,13 @@ CRYSTALS = {
     "sc": ((1.01, 1.45), 1.01, ()),
     "hcp": ((1.01,), 1.01, ()),
     "b2": ((0.9, 1.01), 1.01, (1,)),
+    # one mobile chemistry on two INEQUIVALENT sites joined by the jump network (octahedral + 2 tetrahedral
+    # interstitial sites of fcc): jumps whose end points have different on-site energies
+    "octtet": ((0.45, 0.55), 0.45, ()),
 }
+NSITES = {"hcp": 2, "octtet": 3}
+if os.environ.get("MCSIM_CRYSTALS"):      # A/B experiments only
+    CRYSTALS = {k: v for k, v in CRYSTALS.items() if k in os.environ["MCSIM_CRYSTALS"].split(",")}
 CHEM = 0
 _CRYS, _CE = {}, {}
 
@@ -55,6 +62,10 @@ def get_crystal(name):
             c = crystal.Crystal.HCP(1., chemistry="A")
         elif name == "b2":
             c = crystal.Crystal(np.eye(3), [[np.zeros(3)], [0.5 * np.ones(3)]], ["A", "B"])
+        elif name == "octtet":
+            fcc = crystal.Crystal.FCC(1., "A")
+            c = crystal.Crystal(fcc.lattice, [[np.array([.5, .5, .5]), np.array([.25, .25, .25]),
+                                               np.array([.75, .75, .75])]], ["I"])
         else:
             raise KeyError(name)
         _CRYS[name] = c
@@ -354,7 +365,9 @@ class Run(RunBase):
             return {"op": "swap", "o": rng.randrange(self.n), "u": rng.randrange(self.n), "do": True}
         L = rng.choice((1, 2, 4, 8, 16, 32, 64))
         if self.W.exact:
-            kt = [rng.randrange(-8, 64) / 16.0 + 1.0 / 32 for _ in range(L)]
+            # dyadic worlds: every dE is exact, so exact ties dE == kTlogu are decidable (the Metropolis rule
+            # rejects them); a third of the values sit on the 1/16 grid where ties (incl. dE = 0 = kTlogu) occur
+            kt = [rng.randrange(-8, 64) / 16.0 + (0.0 if rng.random() < 0.33 else 1.0 / 32) for _ in range(L)]
         else:
             T = rng.choice((0.1, 0.5, 1.0, 3.0))
             kt = [-T * np.log(1.0 - rng.random()) for _ in range(L)]
@@ -658,7 +671,9 @@ class Run(RunBase):
         for k in range(L):
             o, u = int(step.unoccupied_set[oc[k]]), int(step.occupied_set[uc[k]])
             d_ref = ref.deltaE_trial((o,), (u,))
-            if abs(d_ref - kt[k]) <= 1e-9 * self.W.scale:
+            if d_ref == kt[k]:
+                self.probes["exact-tie-in-batch"] += 1
+            if not self.W.exact and abs(d_ref - kt[k]) <= 1e-9 * self.W.scale:
                 # a tie within round-off: the statement cannot be decided; truncate the batch here
                 L = k
                 self.probes["batch-truncated-at-tie"] += 1
@@ -778,7 +793,7 @@ class Engine(object):
             cutoff = rng.choice(CRYSTALS[c][0])
             order = rng.choice((2, 3, 3))
             S = np.array(SUPERS[s])
-            nsites = abs(int(round(np.linalg.det(S)))) * (2 if c == "hcp" else 1)
+            nsites = abs(int(round(np.linalg.det(S)))) * NSITES.get(c, 1)
             if nsites > (54 if self.tier == "thorough" else 36):
                 continue
             jumps = True if self.prop == "C34" else rng.random() < 0.6
